@@ -160,6 +160,9 @@ def fault_scenarios(cases, prop):
     return out
 
 BAD = {"sunk-then-fail": ("AS{asn} AND AS-MISSING{k}", "sunk"), "unknown-as-set": ("AS-MISSING{k}", None), "error-E": ("AS-ERR{k}", "E"), "error-F": ("AS-ERR{k}", "F"),
+       # the unsupported construct is not in the policy's own expression but in the filter-set it names
+       "fset-regex": ("FLTR-UNSUP-RE{k}", "fset:<^AS65001 .* AS65002$>"), "fset-peeras": ("FLTR-UNSUP-PA{k} OR AS-NOBODY{k}", "fset:PeerAS"),
+       "fset-attr": ("FLTR-UNSUP-AT{k}", "fset:community(65000:1)"),
        "peeras": ("PeerAS", None), "aspath-regex": ("<^AS65000 .* AS65001$>", None), "attr-match": ("community(65000:1)", None)}
 
 def bad_policy(irr, cls, k):
@@ -172,6 +175,9 @@ def bad_policy(irr, cls, k):
         irr.db["errors"][f"!gAS{asn}"] = "F"; irr.db["errors"][f"!6AS{asn}"] = "F"
         return t.format(asn=asn, k=k), "fail"
     expr = t.format(k=k)
+    if err and err.startswith("fset:"):
+        irr.db["filter_sets"][expr.split()[0]] = err[5:]
+        return expr, "unsup"
     if err:
         irr.db["errors"][f"!i{expr},1"] = err
     return expr, ("unsup" if cls in ("peeras", "aspath-regex", "attr-match") else "fail")
